@@ -770,7 +770,7 @@ fn reader_case(doc: &[u8], bound: usize, local: &mut Local) {
 
 // ------------------------------------------------------------------------------ child / parent
 
-fn run_input(job: &str, inp: &Input, local: &mut Local) {
+fn run_input(job: &str, ord: u64, tier: Tier, inp: &Input, local: &mut Local) {
     local.eval();
     let (r, b) = match inp {
         Input::Zinc(b) => (zinc_entries(b), b),
@@ -791,7 +791,13 @@ fn run_input(job: &str, inp: &Input, local: &mut Local) {
         }
         Err((entry, p)) => {
             local.outcome("panic");
-            local.fail(&format!("panic:{entry}:{}", panic_class(&p)), describe_input(job, inp), p);
+            // a generated (long) input is named by job + ordinal + tier, like the parent does
+            let mut d = describe_input(job, inp);
+            if d.get("generated").is_some() {
+                d["ordinal"] = json!(ord);
+                d["tier"] = json!(tier.name());
+            }
+            local.fail(&format!("panic:{entry}:{}", panic_class(&p)), d, p);
         }
     }
 }
@@ -803,14 +809,15 @@ pub fn child(tier: Tier, job: String, start: u64, end: u64, ctx: &mut ChildCtx, 
         let b = unhex(hx);
         ctx.begin(0);
         let inp = if fmt == "zinc" { Input::Zinc(b) } else { Input::Json(b) };
-        run_input("one", &inp, local);
+        run_input("one", 0, tier, &inp, local);
         return;
     }
     if let Some(rest) = job.strip_prefix("onegen:") {
         // replay of a generated (nesting) case: "onegen:<job>:<ordinal>"
         let (j, o) = rest.split_once(':').unwrap();
         ctx.begin(0);
-        run_input(j, &job_input(j, tier, o.parse().unwrap()), local);
+        let o: u64 = o.parse().unwrap();
+        run_input(j, o, tier, &job_input(j, tier, o), local);
         return;
     }
     for ord in start..end {
@@ -822,7 +829,7 @@ pub fn child(tier: Tier, job: String, start: u64, end: u64, ctx: &mut ChildCtx, 
                 local.nontrivial(&hex(&doc));
             }
         } else {
-            run_input(&job, &job_input(&job, tier, ord), local);
+            run_input(&job, ord, tier, &job_input(&job, tier, ord), local);
         }
     }
 }
@@ -846,6 +853,7 @@ pub fn run(tier: Tier) -> i32 {
             let mut d = describe_input(name, &inp);
             if d.get("generated").is_some() {
                 d["ordinal"] = json!(ord);
+                d["tier"] = json!(tname);
             }
             d
         };
